@@ -16,10 +16,12 @@ Presets3 == {<<0,0,0,0,0,0>>, <<1,1,1,1,1,1>>, <<1,0,2,2,0,1>>}
 Presets2 == {<<0,0,0,0,0,0>>, <<1,2,0,1,0,0>>}
 Presets1 == {<<1,2,0,1,0,0>>}
 
-PE(k, cells, mw, me, mo) == [k |-> k, cells |-> cells, mw |-> mw, me |-> me, mo |-> mo]
+PE(k, cells, mw, me, mo) == [k |-> k, cells |-> cells, mw |-> mw, me |-> me, mo |-> mo, sn |-> FALSE]
+\* the same, the command may also take a snapshot of the stores / restore its latest snapshot (each counts as a write)
+PS(k, cells, mw, me, mo) == [k |-> k, cells |-> cells, mw |-> mw, me |-> me, mo |-> mo, sn |-> TRUE]
 K(k) == PE(k, {}, 0, 0, 0)
 All == 1..6
-Kinds == {"tx", "commit", "crash", "revert", "restart", "lose"}
+Kinds == {"tx", "commit", "crash", "reject", "revert", "badrevert", "restart", "badinit", "lose"}
 
 \* preset block (two records: its transaction and its commit); one transaction of <= mw writes and <= me events
 \* (<= mo operations in all); commit or crash-after-application-commit; revert or restart
@@ -43,7 +45,7 @@ PlanLose(cells, mw, me, mo) ==
   <<PE({"tx"}, cells, mw, me, mo), K({"commit"}), PE({"tx"}, cells, mw, me, mo), K({"commit"}), PE({"tx"}, cells, mw, me, mo), K({"commit", "crash"}),
     K({"lose"}), K({"restart"}), PE({"revert", "tx"}, cells, mw, me, mo), K({"commit"})>>
 \* (simulation only: the exhaustive product of four transactions is out of reach)
-PlanLoseS == PlanLose(All, 4, 3, 6)
+PlanLoseS == [i \in 1..Len(PlanLose(All, 4, 3, 6)) |-> [PlanLose(All, 4, 3, 6)[i] EXCEPT !.sn = TRUE]]
 
 \* preset block, then two transactions in one block (the first establishes the overlay the second runs on)
 Plan2Tx(c1, mw1, me1, mo1, c2, mw2, me2, mo2) ==
@@ -53,8 +55,33 @@ Plan2TxB == Plan2Tx({1, 2, 4}, 2, 1, 2, {1, 2, 4}, 2, 2, 3)
 
 \* simulation: steps 1, 4, 7.. are transactions (or the recovery after a crash), steps 2, 5, .. do not revert or
 \* restart without need, the others are drawn among all enabled kinds
-PlanSim(n) == [i \in 1..n |-> PE(IF i % 3 = 1 THEN {"tx", "recover"}
-                                 ELSE IF i % 3 = 2 THEN {"tx", "commit", "crash", "recover"} ELSE Kinds, All, 4, 3, 6)]
+PlanSim(n) == [i \in 1..n |-> PS(IF i = 1 THEN {"tx", "genesis"}
+                                 ELSE IF i % 3 = 1 THEN {"tx", "recover"}
+                                 ELSE IF i % 3 = 2 THEN {"tx", "commit", "crash", "reject", "recover"} ELSE Kinds, All, 4, 3, 6)]
 PlanSim14 == PlanSim(14)
 PlanSim22 == PlanSim(22)
+
+\* rejected requests in the middle of a history (exhaustive, small): preset block, one small transaction, the block is
+\* committed or offered with a wrong root, a removal or a start with a wrong root, then a real removal / restart
+PlanBad(cells, mw, me, mo) ==
+  <<K({"preset"}), K({}), PE({"tx"}, cells, mw, me, mo), K({"commit", "reject"}), K({"badrevert", "badinit"}), K({"revert", "restart"})>>
+PlanBadA == PlanBad({1, 2, 4}, 1, 1, 2)
+PlanBadB == PlanBad(All, 2, 1, 3)
+\* (simulation) two blocks, wrong roots anywhere, a crash, recovery, further blocks
+PlanBadS ==
+  <<PS({"tx", "genesis"}, All, 4, 3, 6), PS({"tx", "commit"}, All, 4, 3, 6), PS({"tx", "commit"}, All, 4, 3, 6), K({"commit", "reject"}),
+    K({"badrevert", "badinit", "reject"}), PS({"tx"}, All, 4, 3, 6), K({"reject", "commit", "crash"}), K({"badrevert", "badinit", "restart", "recover"}),
+    K({"revert", "restart", "recover"}), PS({"tx", "badrevert"}, All, 4, 3, 6), K({"commit", "badinit"}), K({"commit", "revert", "restart"})>>
+
+\* the genesis block establishes a state at height 0; one transaction; commit | crash; removal back to the genesis
+\* state | restart (recovery down to height 0)
+PlanGen(cells, mw, me, mo) ==
+  <<K({"genesis"}), PE({"tx"}, cells, mw, me, mo), K({"commit", "crash"}), K({"revert", "restart"})>>
+PlanGenA == PlanGen({1, 2, 4}, 1, 1, 2)
+PlanGenB == PlanGen(All, 2, 2, 3)
+
+\* the command takes snapshots of the stores and restores them (preset block, one transaction of <= mw operations)
+PlanSnap(cells, mw, me, mo) == <<K({"preset"}), K({}), PS({"tx"}, cells, mw, me, mo), K({"commit"}), K({"revert"})>>
+PlanSnapA == PlanSnap({1, 4}, 3, 1, 3)
+PlanSnapB == PlanSnap({1, 4}, 4, 1, 4)
 =============================================================================
